@@ -136,6 +136,39 @@ example : versionNew 1 1 = some 0x00011000 ∧ versionToMajorMinor 0x00005000 = 
     ∧ versionNew 1 10 = none ∧ nameIdCheckedAdd 32767 1 = none ∧ nameIdCheckedAdd 256 1 = some 257
     ∧ fwordToFixed 40000 = -1673527296 := by decide
 
+/-! ### signed big-endian scalars: byte patterns (`i8/i16/i32/i64`, `FWord`, fixed types, `LongDateTime`) -/
+
+/-- `LongDateTime` / `i64`: every 8-byte pattern decodes and re-encodes to itself, every value
+survives encode / decode. -/
+theorem i64_bytes_roundtrip (b0 b1 b2 b3 b4 b5 b6 b7 : Int)
+    (h : inU8 b0 ∧ inU8 b1 ∧ inU8 b2 ∧ inU8 b3 ∧ inU8 b4 ∧ inU8 b5 ∧ inU8 b6 ∧ inU8 b7) :
+    toBeS 8 (fromBeS 8 [b0, b1, b2, b3, b4, b5, b6, b7]) = [b0, b1, b2, b3, b4, b5, b6, b7] := by
+  unfold inU8 at h
+  simp [toBeS, toBeU, fromBeS, fromBeU, List.range, List.range.loop]
+  split <;> omega
+
+theorem i64_value_roundtrip (v : Int) (h : inI64 v) : fromBeS 8 (toBeS 8 v) = v := by
+  unfold inI64 at h
+  simp [toBeS, toBeU, fromBeS, fromBeU, List.range, List.range.loop]; split <;> omega
+
+theorem i16_bytes_roundtrip (b0 b1 : Int) (h : inU8 b0 ∧ inU8 b1) :
+    toBeS 2 (fromBeS 2 [b0, b1]) = [b0, b1] := by
+  unfold inU8 at h
+  simp [toBeS, toBeU, fromBeS, fromBeU, List.range, List.range.loop]
+  split <;> omega
+
+theorem i32_bytes_roundtrip (b0 b1 b2 b3 : Int) (h : inU8 b0 ∧ inU8 b1 ∧ inU8 b2 ∧ inU8 b3) :
+    toBeS 4 (fromBeS 4 [b0, b1, b2, b3]) = [b0, b1, b2, b3] := by
+  unfold inU8 at h
+  simp [toBeS, toBeU, fromBeS, fromBeU, List.range, List.range.loop]
+  split <;> omega
+
+theorem i8_u8_bytes_roundtrip (b0 : Int) (h : inU8 b0) :
+    toBeS 1 (fromBeS 1 [b0]) = [b0] ∧ toBeU 1 (fromBeU [b0]) = [b0] := by
+  unfold inU8 at h
+  simp [toBeS, toBeU, fromBeS, fromBeU, List.range, List.range.loop]
+  split <;> omega
+
 /-! ### Tag -/
 
 /-- the two loops accept the same byte strings; `new_checked`'s loop returns its input. -/
